@@ -304,6 +304,9 @@ def hypothesis_search(strategy, body, seed, max_examples, res, batch=None, deadl
         b += 1
 
 
+MACHINE_BATCH = 1000
+
+
 def run_machine(machine, holder, res, seed, n, steps):
     """Run a RuleBasedStateMachine class under the common settings.  `holder` is the dict in
     which the machine stores its Failure under "f" before raising Found.  A violation that does
@@ -315,9 +318,21 @@ def run_machine(machine, holder, res, seed, n, steps):
     from hypothesis.stateful import run_state_machine_as_test
 
     warnings.filterwarnings("ignore", category=hypothesis.errors.HypothesisWarning)
-    st_ = hypothesis.settings(hypothesis_settings(n), stateful_step_count=steps)
+    # in batches of MACHINE_BATCH histories: Hypothesis keeps what it has generated for the whole
+    # of one run, and a thorough shard of 15000 histories grew past 3 GB.  The first batch keeps
+    # the seed a single run had, so budgets up to one batch generate exactly what they did.
+    import gc
+
     try:
-        run_state_machine_as_test(hypothesis.seed(derive_seed(seed, "m"))(machine), settings=st_)
+        done, b = 0, 0
+        while done < n:
+            k = min(MACHINE_BATCH, n - done)
+            st_ = hypothesis.settings(hypothesis_settings(k), stateful_step_count=steps)
+            s_ = derive_seed(seed, "m") if b == 0 else derive_seed(seed, "m", b)
+            run_state_machine_as_test(hypothesis.seed(s_)(machine), settings=st_)
+            done += k
+            b += 1
+            gc.collect()
     except Found:
         res.failures.append(holder["f"])
     except BaseException as e:  # noqa: BLE001
